@@ -45,6 +45,9 @@ class CellTranslator(AbstractTranslator):
                     context._cells_in_progress.discard(cell.uid)
             else:
                 code = repr(cell.value) if cell.value is not None else 'self.EmptyCell()'
+                if isinstance(cell.value, float) and code in ('inf', '-inf', 'nan'):
+                    # a stored number beyond the range of a double (<v>1e999</v>): its repr is a name, not a literal
+                    code = f"float('{code}')"
                 try:
                     compile(code, '<cell>', 'eval')
                 except SyntaxError:
